@@ -41,6 +41,22 @@ def main():
         build_ok, build_out = True, ""
         if not args.no_build:
             ok, build_out = common.coq_build(prop)
+            if not ok:
+                # the targets are this property's own files: report which
+                # file stopped compiling (a proof or bridge lemma that no
+                # longer holds for the regenerated/edited sources)
+                import re as _re
+                errs = _re.findall(
+                    r'File "([^"]+)", line (\d+)[^\n]*\n((?:.*\n){0,12}?)'
+                    r'(?=File "|make|coqc|COQC|\Z)', build_out)
+                for fn, ln, body in errs[:4]:
+                    if "Error" in body:
+                        run.broken.append((
+                            "build(%s:%s)" % (os.path.relpath(fn, common.COQ)
+                                              if fn.startswith("/") else fn, ln),
+                            body.strip()[:500]))
+                if not errs:
+                    run.broken.append(("build", build_out[-600:]))
             # a failure in a file this property does not depend on is not
             # ours; what matters is checked by audit_props / the model runs
         bad = common.audit_forbidden()
